@@ -8,6 +8,7 @@ import GomlVerif.Driver.C11
 import GomlVerif.Driver.C19
 import GomlVerif.Driver.C13
 import GomlVerif.Driver.C16
+import GomlVerif.Driver.Dce
 
 def main (args : List String) : IO UInt32 := do
   match args with
@@ -22,4 +23,5 @@ def main (args : List String) : IO UInt32 := do
   | ["c19"] => Goml.Driver.C19.main; return 0
   | ["c13"] => Goml.Driver.C13.main; return 0
   | ["c16"] => Goml.Driver.C16.main; return 0
+  | ["dce"] => Goml.Driver.Dce.main; return 0
   | _ => IO.eprintln "usage: gomlmodel <c05|…> < lines"; return 2
